@@ -361,7 +361,12 @@ class Exec:
         return self.ev(es[0], st, lambda s, v: self.ev_list(es[1:], s, k, K, acc + [v]), K)
     def ev_UnaryOp(self, e, st, k, K):
         if isinstance(e.op, ast.Not): return self.ev(e.operand, st, lambda s, v: k(s, PyBool(Not(truthy(v, s)))), K)
-        if isinstance(e.op, ast.USub): return self.ev(e.operand, st, lambda s, v: k(s, PyInt(-self.as_int(v))), K)
+        if isinstance(e.op, ast.USub):
+            def neg(s, v):
+                if isinstance(v, (PyInt, int)) and not isinstance(v, bool): return k(s, PyInt(-self.as_int(v)))
+                vv = to_val(v)          # -timedelta is a timedelta; -int an int (anything else: the integer view, unspecified for other constructors)
+                return self.branch(s, Val.is_td(vv), lambda a: k(a, Val.td(-Val.tus(vv))), lambda b: k(b, PyInt(-self.as_int(v))))
+            return self.ev(e.operand, st, neg, K)
         raise Unsupported("unary operator " + ast.unparse(e))
     def ev_IfExp(self, e, st, k, K):
         return self.ev(e.test, st, lambda s, v: self.branch(s, truthy(v, s), lambda a: self.ev(e.body, a, k, K), lambda b: self.ev(e.orelse, b, k, K)), K)
@@ -507,6 +512,25 @@ class Exec:
         def h(ex, st, e, recv, args, kw, k, K):
             if name in ('int', 'float') and len(args) == 1 and not kw and isinstance(args[0], PyInt): return k(st, args[0])
             if name in ('int', 'float') and len(args) == 1 and not kw and isinstance(args[0], int) and not isinstance(args[0], bool): return k(st, args[0])
+            # abs / min / max over operands that are all ints or all timedeltas: exact (library contract: abs(x) = x if x >= 0 else -x on int and
+            # timedelta; min/max of two by <=); any other operand kind stays unmodelled
+            if name == 'abs' and len(args) == 1 and not kw:
+                if isinstance(args[0], (PyInt, int)) and not isinstance(args[0], bool):
+                    a = ex.as_int(args[0]); return k(st, PyInt(If(a < 0, -a, a)))
+                if is_expr(args[0]) and args[0].sort() == Val:
+                    v = args[0]
+                    def exact(s1): return k(s1, If(Val.is_td(v), Val.td(If(Val.tus(v) < 0, -Val.tus(v), Val.tus(v))), Val.intv(If(Val.i(v) < 0, -Val.i(v), Val.i(v)))))
+                    def unmod(s1): approx(s1, "result of abs(...) is not modelled for this operand kind (unconstrained value)"); return k(s1, fresh('abs_result'))
+                    return ex.branch(st, Or(Val.is_td(v), Val.is_intv(v)), exact, unmod)
+            if name in ('min', 'max') and len(args) == 2 and not kw and all((isinstance(a, (PyInt, int)) and not isinstance(a, bool)) or (is_expr(a) and a.sort() == Val) for a in args):
+                if all(isinstance(a, (PyInt, int)) for a in args):
+                    a, b = ex.as_int(args[0]), ex.as_int(args[1]); return k(st, PyInt(If((a <= b) if name == 'min' else (a >= b), a, b)))
+                x, y = to_val(args[0]), to_val(args[1])
+                def exact2(s1):
+                    kx = If(Val.is_td(x), Val.tus(x), Val.i(x)); ky = If(Val.is_td(y), Val.tus(y), Val.i(y))
+                    return k(s1, If((kx <= ky) if name == 'min' else (kx >= ky), x, y))
+                def unmod2(s1): approx(s1, f"result of {name}(...) is not modelled for these operand kinds (unconstrained value)"); return k(s1, fresh(name + '_result'))
+                return ex.branch(st, Or(And(Val.is_td(x), Val.is_td(y)), And(Val.is_intv(x), Val.is_intv(y))), exact2, unmod2)
             approx(st, f"result of {name}(...) is not modelled (unconstrained value)")
             if exc_cls:
                 f = st.fork(); K['exc'](f, new_exc(f, exc_cls))
